@@ -22,63 +22,70 @@ Local Open Scope N_scope.
 
 Inductive c20_case := K (d : depth) (c : rgba) (impl : option (list N)).
 
-(* the 240 entries once, not per case *)
-Definition palette_entries : list vec := Eval vm_compute in map (entry xcube_z xgreys_z) palette_indices.
-Definition best_d2_tab (v : vec) : Z :=
-  fold_left (fun m e => Z.min m (d2 v e)) palette_entries (d2 v (entry xcube_z xgreys_z 16)).
+(* the three roles get three different colours: fg = c, bg = rot c, underline = rot (rot c) *)
+Definition rot (c : rgba) : rgba := mkRgba (cg c) (cb c) (cr c) (ca c).
 
 Definition level_of_entry (e : N) : option N :=
   match e with 0 => Some 0 | 8 => Some 1 | 7 => Some 2 | 15 => Some 3 | _ => None end.
 
 Definition colour_eqb (a b : colour) : bool := if colour_eq_dec a b then true else false.
 
+Definition is_rgb (o : option colour) (c : rgba) : bool :=
+  match o with Some x => colour_eqb x (CRgb (cr c) (cg c) (cb c)) | None => false end.
+
+(* 256 colours, one role: (agrees with the exact model, property) *)
+Definition check256 (o : option colour) (c : rgba) : bool * bool :=
+  match o with
+  | Some (CIdx n) =>
+      let v := lin_vec c in
+      let range := (16 <=? n) && (n <? 256) in
+      ( range && ((n =? pal256_exact c)
+                  || sqrt_le_plus (d2 v (entry cube_z greys_z n)) (d2 v (entry cube_z greys_z (pal256_exact c))) tol256)
+      , range && sqrt_le_plus (d2 v (entry xcube_z xgreys_z n)) (best_d2_tab v) tol256 )
+  | _ => (false, false)
+  end.
+
+(* grey, one role *)
+Definition check_gray (o : option colour) (c : rgba) : bool * bool :=
+  match o with
+  | Some (CIdx e) =>
+      match level_of_entry e with
+      | Some l =>
+          let lz := luma_z c in
+          let dist j := Z.abs (lz - nthz gray_levels_z j) in
+          let di := dist (N.to_nat l) in
+          ( (l =? gray4_exact c) || (di <=? dist (N.to_nat (gray4_exact c)) + tol_luma)%Z
+          , forallb (fun j => (di <=? dist j + tol_luma)%Z) [0; 1; 2; 3]%nat )
+      | None => (false, false)
+      end
+  | _ => (false, false)
+  end.
+
+Definition and2 (a b : bool * bool) : bool * bool := (fst a && fst b, snd a && snd b).
+
 Definition c20_check (k : c20_case) : bool * bool :=
   match k with
   | K d c None => (false, false)
   | K d c (Some ib) =>
+      let c2 := rot c in let c3 := rot c2 in
       let opaque_ok := rgba_ok c && (ca c =? 255) in
       match vt_ops ib with
       | [OSgr t] =>
+          let shape := opaque_ok && vt_complete ib in
           match d with
           | TrueColor =>
-              let want := Some (CRgb (cr c) (cg c) (cb c)) in
-              let same := match t_fg t, t_bg t, t_ulc t with
-                          | Some a, Some b, Some u => colour_eqb a (CRgb (cr c) (cg c) (cb c)) && colour_eqb b a && colour_eqb u a
-                          | _, _, _ => false
-                          end in
               ( match encode pal256_exact gray4_exact (mkCaps d false false)
-                             (FaceModify (mkFM false (Some c) (Some c) None (Some c) None None None None)) with
+                             (FaceModify (mkFM false (Some c) (Some c2) None (Some c3) None None None None)) with
                 | Ok bs => nlist_eqb bs ib
                 | _ => false
                 end
-              , opaque_ok && same && vt_complete ib )
+              , shape && is_rgb (t_fg t) c && is_rgb (t_bg t) c2 && is_rgb (t_ulc t) c3 )
           | EightBit =>
-              match t_fg t, t_bg t, t_ulc t with
-              | Some (CIdx n), Some (CIdx n2), Some (CIdx n3) =>
-                  let v := lin_vec c in
-                  let di := d2 v (entry cube_z greys_z n) in
-                  let dm := d2 v (entry cube_z greys_z (pal256_exact c)) in
-                  let roles := (n =? n2) && (n =? n3) && (16 <=? n) && (n <? 256) in
-                  ( roles && ((n =? pal256_exact c) || sqrt_le_plus di dm tol256)
-                  , opaque_ok && roles
-                    && sqrt_le_plus (d2 v (entry xcube_z xgreys_z n)) (best_d2_tab v) tol256 && vt_complete ib )
-              | _, _, _ => (false, false)
-              end
+              and2 (and2 (check256 (t_fg t) c) (check256 (t_bg t) c2)) (and2 (check256 (t_ulc t) c3) (true, shape))
           | Gray =>
-              match t_fg t, t_bg t, t_ulc t with
-              | Some (CIdx e), Some (CIdx e2), None =>
-                  match level_of_entry e with
-                  | Some l =>
-                      let lz := luma_z c in
-                      let dist j := Z.abs (lz - nthz gray_levels_z j) in
-                      let di := dist (N.to_nat l) in
-                      ( (e =? e2) && ((l =? gray4_exact c) || (di <=? dist (N.to_nat (gray4_exact c)) + tol_luma)%Z)
-                      , opaque_ok && (e =? e2) &&
-                        forallb (fun j => (di <=? dist j + tol_luma)%Z) [0; 1; 2; 3]%nat && vt_complete ib )
-                  | None => (false, false)
-                  end
-              | _, _, _ => (false, false)
-              end
+              (* no grey rendering of an underline colour: nothing may be sent for it *)
+              let no_ul := match t_ulc t with None => true | Some _ => false end in
+              and2 (and2 (check_gray (t_fg t) c) (check_gray (t_bg t) c2)) (no_ul, no_ul && shape)
           end
       | _ => (false, false)
       end
